@@ -7,6 +7,7 @@ NEEDS_VO = ["Check/C01.v", "Check/Prog.v"]
 KNOWN_FILE = os.path.join(os.path.dirname(os.path.dirname(os.path.abspath(__file__))), "known_c07.json")
 KINDS = {"r8": "CL", "r16": "BX", "r32": "EDX", "acc8": "AL", "acc16": "AX", "acc32": "EAX", "sreg": "DS", "creg": "CR0", "imm8": "5", "imm16": "0x1234", "imm32": "0x12345678",
          "neg": "-3", "mem16": "[BX+4]", "mem32": "[EDX+ECX*4+8]", "abs": "[0x0ff0]", "bytemem": "BYTE [SI]", "wordmem": "WORD [BX]", "dwordmem": "DWORD [0x0ff8]",
+         "badpair": "[SI+DI]", "badpair2": "[BX+BP+4]", "badpair3": "[CX+SI]",      # register pairs that have no 16-bit ModR/M encoding
          "label": "lbl", "undef": "nosuchname", "str": "\"s\"", "far": "2*8:0x1b", "dollar": "$", "expr": "lbl+2", "memlabel": "[lbl]", "port": "0x3f8"}
 NON_EMITTING = {"ORG", "ALIGNB", "ALIGN", "END", "RESB", "RESW", "RESD", "RESQ", "REST", "TIMES", "DB", "DW", "DD", "DQ", "DT"}
 PREFIX = "\tMOV\tAX,1\n"
@@ -19,6 +20,7 @@ def arglists(tier):
     two_sel = [("r16", "imm8"), ("r16", "imm16"), ("r16", "r16"), ("r8", "r8"), ("r32", "r32"), ("r32", "imm32"), ("acc16", "imm16"), ("r16", "mem16"), ("mem16", "r16"), ("r8", "bytemem"),
                ("bytemem", "imm8"), ("wordmem", "imm16"), ("dwordmem", "imm32"), ("r16", "label"), ("r16", "undef"), ("acc8", "port"), ("port", "acc8"), ("acc8", "imm8"), ("imm8", "acc8"),
                ("sreg", "r16"), ("r16", "sreg"), ("creg", "r32"), ("r32", "creg"), ("r32", "mem32"), ("mem32", "r32"), ("r16", "abs"), ("acc16", "abs"), ("abs", "acc16"),
+               ("r16", "badpair"), ("badpair", "r16"), ("r16", "badpair2"), ("r8", "badpair3"), ("badpair2", "imm8"),
                ("undef", "r16"), ("mem16", "undef"), ("r16", "expr"), ("r16", "str"), ("r16", "dollar"), ("r16", "memlabel"), ("r16", "neg")]
     sub = ["r8", "r16", "r32", "acc16", "sreg", "imm8", "imm16", "imm32", "mem16", "mem32", "abs", "bytemem", "label", "undef", "port"]
     two = [list(t) for t in two_sel] if tier == "quick" else [list(t) for t in two_sel] + [[a, b] for a in sub for b in sub if (a, b) not in two_sel]
@@ -79,6 +81,10 @@ def run(v, tier, rng, write_known=False):
         xb = out[pl:-3] if len(out) >= pl + 3 else b""
         after = int.from_bytes(out[-3:-1], "little") if len(out) >= 3 else -1
         emitting = mn not in NON_EMITTING
+        if mn in DETAILED and any(a.startswith("badpair") for a in args) and emitting and len(xb) > 0:
+            # the operand has no encoding at all (no 16-bit ModR/M row for this register pair): bytes without a diagnostic
+            # can only be some other instruction
+            fail.append((i, "accepted-unencodable-operand"))
         if emitting and len(xb) == 0:
             fail.append((i, "silent-drop"))
         elif after != (pl + len(xb)) % 65536 and mn not in ("ORG",):
